@@ -320,9 +320,11 @@ class Gen:
                 out += [k for k in self.ns[m] if k not in scope]
             return out
 
+        subnames = set(c.rsplit('.', 1)[1] for c in self.children.get(m, [])) if not in_class else set()
+
         def pick_name(orig: str) -> Optional[str]:
-            """asname: None keeps orig (must be free in this scope)."""
-            if orig not in scope and r.random() < 0.55:
+            """asname: None keeps orig (must be free in this scope; a package never rebinds the name of a submodule)."""
+            if orig not in scope and orig not in subnames and r.random() < 0.55:
                 return None
             return self.fresh('a', 0.2)
 
@@ -378,6 +380,8 @@ class Gen:
                 t = r.choice(allowed)
                 if k == 'import':
                     top = t.split('.')[0]
+                    if top in subnames:
+                        continue
                     if top in scope:
                         if scope[top] != ('mod', top):
                             continue
@@ -455,7 +459,7 @@ class Gen:
                 x = r.choice(cands)
                 al = self.mods[x]['all']
                 names = list(al) if al is not None else [n for n in self.ns[x] if not n.startswith('_')]
-                if not names or any(n in scope for n in names):
+                if not names or any(n in scope or n in subnames for n in names):
                     continue
                 level, modname = 0, x
                 rel = self.relative_form(m, x) if r.random() < 0.5 else None
